@@ -230,6 +230,49 @@ def run(tier):
                 chk.fail('dtime:millisecond', {'microsecond': u}, f'written millisecond {ms}')
         chk.streams['dtime-ms'] = len(uss)
         chk.nontrivial.add(('dtime-ms', 'sweep'))
+    # the codes in their structural positions inside an attribute component: the count (UVARI), the units (IDENT), the
+    # length prefix of ASCII values, the origin and copy number inside OBNAME values; read back by the strict reader
+    if bres.ok:
+        from harness import convert
+        from dliswriter.logical_record import eflr_types as T
+        counts = sorted(set(list(range(0, 300)) + [16382, 16383, 16384, 16385] + ([] if tier == 'quick' else list(range(300, 1200, 7)))))
+        creqs, cmeta = [], []
+        for n in counts:
+            for which in ('coordinates', 'text'):
+                if which == 'text' and n > 400:
+                    continue
+                if which == 'coordinates':
+                    item = T.AxisItem('A', parent=T.AxisSet(), origin_reference=1)
+                    vals = [float(k % 7) for k in range(n)]
+                    st, err = convert.call(item.set_attributes, coordinates=vals)
+                    attr, label = item.coordinates, 'COORDINATES'
+                else:
+                    item = T.CommentItem('C', parent=T.CommentSet(), origin_reference=1)
+                    vals = ['L%d' % k for k in range(n)]
+                    st, err = convert.call(item.set_attributes, text=vals)
+                    attr, label = item.text, 'TEXT'
+                if st != 'ok':
+                    continue
+                sb, b = convert.call(attr.get_as_bytes)
+                if sb != 'ok':
+                    chk.fail('count:raises', {'attribute': label, 'values': n}, f'get_as_bytes raised {b}')
+                    continue
+                creqs.append(f"peflrv {convert.synthetic_set(b, label).hex()}")
+                cmeta.append((label, n, vals, b))
+        for (label, n, vals, b), rep in zip(cmeta, model.ask(creqs)):
+            chk.case('structural-positions', nontrivial_key=('count', label, n))
+            case = {'attribute': label, 'number_of_values': n}
+            if not rep.startswith('ok'):
+                chk.fail('count:undecodable', case, f'an attribute with {n} values does not decode under the component grammar '
+                                                    f'(component starts {b[:12].hex()})')
+                continue
+            comp = rep.split('] ', 1)[1].split('|', 1)[1]
+            cnt, rc, units, vtxt = comp.split(':', 3)
+            toks = [] if vtxt == '-' else vtxt.split(',')
+            if int(cnt) != n or len(toks) != n:
+                chk.fail('count:wrong', case, f'{n} values written, the component announces {cnt} and carries {len(toks)}')
+            elif any(not convert.token_matches(v, t) for v, t in zip(vals, toks)):
+                chk.fail('count:values', case, 'values differ after reading back')
     chk.exhaustive = False
     return finish(chk, bres, THEOREMS,
                   partial_note='float64->float32 rounding of a Python float given to FSINGL and str() of non-str '
